@@ -504,6 +504,11 @@ import sharepoint2text.parsing.extractors.pdf._pypdf_aes_fallback as A
 names = ('aes_ecb_encrypt', 'aes_ecb_decrypt', 'aes_cbc_encrypt', 'aes_cbc_decrypt')
 importers = sorted(m for m, mod in list(sys.modules.items()) if m.startswith('pypdf') and mod is not None
                    and any(hasattr(mod, n) for n in names + ('CryptAES',)))
+try:
+    fb.aes_cbc_decrypt(b'k' * 16, b'i' * 16, b'd' * 16)
+    stub = 'no exception'
+except Exception as e:
+    stub = type(e).__name__ + ': ' + str(e)
 ret = A.patch_pypdf_fallback_aes()
 stale = []
 for m in importers:
@@ -518,7 +523,7 @@ for m in importers:
                 stale.append(m + '.CryptAES (round trip)')
         except Exception as e:
             stale.append(m + '.CryptAES (' + type(e).__name__ + ')')
-print(json.dumps({'provider': pypdf._crypt_providers.crypt_provider[0], 'returned': ret, 'importers': importers, 'stale': stale}))
+print(json.dumps({'provider': pypdf._crypt_providers.crypt_provider[0], 'returned': ret, 'importers': importers, 'stale': stale, 'stub': stub}))
 """
 
 
@@ -574,6 +579,15 @@ def validate_views():
             return False, pb["error"]
         return sorted(pb["importers"]) == sorted(ASSUMED_IMPORTERS), f"modules binding the AES names: {pb['importers']}"
     fact("pypdf-modules-binding-the-aes-names", v_pypdf)
+
+    def v_stub():
+        pb = patch_probe()
+        if pb.get("error"):
+            return False, pb["error"]
+        if pb["provider"] != "local_crypt_fallback":
+            return True, "a real crypto provider is installed: the fallback path is not used"
+        return pb["stub"].startswith("DependencyError") and "AES algorithm" in pb["stub"], "unpatched fallback primitive raises " + pb["stub"]
+    fact("pypdf-fallback-stub-raises-DependencyError-mentioning-AES-algorithm", v_stub)
 
     def v_zip():
         z = zipfile.ZipFile(io.BytesIO(zip_bytes([("a.txt", b"x", 1, None), ("b.txt", b"y", 0, 9), ("d/", b"", 0, None), ("c.txt", b"z", 0, None)])))
